@@ -482,7 +482,7 @@ class Session:
         raise ValueError(solver)
 
     def prove(s, name, goal, hyps=(), *, timeout=None, solver='z3', kind='spec', functions=(), bounds='', mandatory=True,
-              replay=None, vars_=(), expect='unsat', note=''):
+              replay=None, vars_=(), expect='unsat', note='', rgoal=None):
         """check hyps /\\ not goal.  replay(model)-> ('reproduced'|'not-reproduced'|'no-replay', info)"""
         timeout = timeout or s.cap(150, 300)
         asserts = list(hyps) + [z3.Not(goal)]
@@ -511,6 +511,21 @@ class Session:
                 except Exception as e:
                     verdict, info = 'replay-error', {'error': traceback.format_exc()[-1500:]}
                 rec['replay'] = verdict; rec['replay_info'] = info
+                if verdict != 'reproduced' and rgoal is not None:
+                    # rounding-erased counterexamples found by nlsat often violate the atom by 1e-9 at huge / tiny inputs and drown in the float replay:
+                    # ask again for a robust one (inputs in [-8, 8], atom violated by at least 1/2) and replay that
+                    try:
+                        l_, r_ = rgoal.l, rgoal.r
+                        l_ = z3.RealVal(l_) if isinstance(l_, (int, float)) else l_; r_ = z3.RealVal(r_) if isinstance(r_, (int, float)) else r_
+                        gap = {'eq': z3.Or(l_ - r_ >= 0.5, r_ - l_ >= 0.5), 'le': l_ - r_ >= 0.5, 'lt': l_ - r_ >= 0.5, 'ge': r_ - l_ >= 0.5, 'gt': r_ - l_ >= 0.5}[rgoal.kind]
+                        box = [z3.And(v >= -8, v <= 8) for v in vars_ if z3.is_real(v)]
+                        extra = [gap] + box + ([rgoal.guard] if getattr(rgoal, 'guard', None) is not None else [])
+                        r2, m2, dt2, used2 = s.query(list(hyps) + extra, min(timeout, 30), solver, vars_)
+                        rec['robust_cex'] = r2
+                        if r2 == 'sat':
+                            verdict, info = replay(m2); rec['replay'] = verdict; rec['replay_info'] = info
+                    except Exception as e:
+                        rec['robust_cex'] = 'error: %s' % str(e)[:200]
                 if verdict == 'reproduced':
                     s.violations.append((name, info))
                 else:
@@ -579,7 +594,7 @@ class Session:
         if not isinstance(goals, (list, tuple)): goals = [('spec', goals)]
         for label, g in goals:
             s._prove_known('%s.%s' % (name, label), goal_term(g), hyps, res, known, timeout=timeout, solver=solver, kind='spec', functions=fnlist, bounds=binfo,
-                           spec_fn=(spec, label), pre_fn=pre, unit=unit, fname=fname, mode=mode, vars_=allvars, mandatory=mandatory)
+                           spec_fn=(spec, label), pre_fn=pre, unit=unit, fname=fname, mode=mode, vars_=allvars, mandatory=mandatory, rgoal=g if (mode == 'real' and isinstance(g, RGoal)) else None)
         if mutant is not None and not s.quick:
             mg = mutant(res.ins, res.outs)
             if not isinstance(mg, (list, tuple)): mg = [('mutant', mg)]
@@ -763,7 +778,7 @@ class Session:
             return 'not-reproduced', info
         return replay
 
-    def _prove_known(s, oname, goal, hyps, res, known, *, timeout, solver, kind, functions, bounds, spec_fn, pre_fn, unit, fname, mode, vars_, mandatory=True, replayer=None):
+    def _prove_known(s, oname, goal, hyps, res, known, *, timeout, solver, kind, functions, bounds, spec_fn, pre_fn, unit, fname, mode, vars_, mandatory=True, replayer=None, rgoal=None):
         """prove goal; if a reproduced counterexample falls into a listed known finding's region, report KNOWN-FINDING and re-prove outside it."""
         regions = []
         for kid in known:
@@ -774,7 +789,7 @@ class Session:
             regions.append((kid, kf, eval_region(kf['region'], res, oname, s.pid)))
         rp = replayer or s._replayer(res, spec_fn, pre_fn, unit, fname, mode, oname, side_kind=None if spec_fn else kind)
         if not regions:
-            s.prove(oname, goal, hyps, timeout=timeout, solver=solver, kind=kind, functions=functions, bounds=bounds, replay=rp, vars_=vars_, mandatory=mandatory)
+            s.prove(oname, goal, hyps, timeout=timeout, solver=solver, kind=kind, functions=functions, bounds=bounds, replay=rp, vars_=vars_, mandatory=mandatory, rgoal=rgoal)
             return
         # first: is there a violation inside a known region?  (so we print KNOWN-FINDING only while the defect is still there)
         for kid, kf, reg in regions:
@@ -793,7 +808,7 @@ class Session:
         # then: the obligation outside all known regions must hold
         excl = [z3.Not(reg) for _, _, reg in regions]
         s.prove(oname + '.outside-known', goal, list(hyps) + excl, timeout=timeout, solver=solver, kind=kind, functions=functions,
-                bounds=bounds + '; excluding known-finding regions ' + ','.join(k for k, _, _ in regions), replay=rp, vars_=vars_, mandatory=mandatory)
+                bounds=bounds + '; excluding known-finding regions ' + ','.join(k for k, _, _ in regions), replay=rp, vars_=vars_, mandatory=mandatory, rgoal=rgoal)
 
 # ----------------------------------------------------------------------------- known findings
 _KF = None
